@@ -523,7 +523,25 @@ func runC19(env *Env) {
 	var litems []string
 	// graphs with gateways, three of them with a flow back to an earlier node (loops)
 	gw := []*Prog{c04Prog([]int{1, 0, 1}, 1, 2, ""), c04Prog([]int{1, 1}, -1, 3, ""), c04Prog([]int{0, 0, 0, 1}, 3, 1, ""),
-		c03Prog(2, 1), c03Prog(3, 2), c19LoopProg()}
+		c03Prog(2, 1), c03Prog(3, 2), c19LoopProg(), c19NestedSplitProg(), c19NestedSplitProg()}
+	// every gateway graph once on its own, with the documented defaults and with one other configuration
+	for gi, g := range gw {
+		for ci := 0; ci < 2; ci++ {
+			defs, err := ParseDefs(g.XML(""))
+			must(err)
+			pp := (*defs.Processes())[0]
+			pp.IdField = schema.NewStringP(fmt.Sprintf("PG%d_%d", gi, ci))
+			lb := fmt.Sprintf("gateway-graph %d alone", gi)
+			env.Current("layout of " + lb)
+			it := c19Layout(rep, []*schema.Process{&pp}, cfgs[ci], lb)
+			rep.Evaluations++
+			rep.Nontrivial++
+			rep.Count("layout_gateway_graph_alone")
+			if it != "" {
+				litems = append(litems, it)
+			}
+		}
+	}
 	for i := 0; i < nLay; i++ {
 		np := 1 + rng.Intn(3)
 		procs := []*schema.Process{}
@@ -592,5 +610,29 @@ func c19LoopProg() *Prog {
 	p.Flow("F", "B", "")
 	p.Flow("A", "endA", "")
 	p.Flow("B", "endB", "")
+	return p
+}
+
+// c19NestedSplitProg: a split whose third branch is a split again (the inner split sits on a lower row, its branches
+// are alone in their column): start -> G1 -> {A, B, G2}, G2 -> {D, E}, every branch with an end event of its own
+func c19NestedSplitProg() *Prog {
+	p := &Prog{}
+	p.Node("start", "start")
+	g1 := p.Node("xor", "G1")
+	p.Node("end", "endA")
+	p.Node("end", "endB")
+	g2 := p.Node("xor", "G2")
+	p.Node("task", "D")
+	p.Node("task", "E")
+	p.Node("end", "endD")
+	p.Node("end", "endE")
+	p.Flow("start", "G1", "")
+	p.Flow("G1", "endA", "c0")
+	p.Flow("G1", "endB", "c1")
+	g1.Default = p.Flow("G1", "G2", "").ID
+	p.Flow("G2", "D", "c2")
+	g2.Default = p.Flow("G2", "E", "").ID
+	p.Flow("D", "endD", "")
+	p.Flow("E", "endE", "")
 	return p
 }
